@@ -27,6 +27,8 @@ def impl(case):
     # gscale g > 1: the chunk grid is fractional (bounds/g, floats) while spike times stay whole
     # numbers; the model sees everything in units of 1/g
     grid = case['bounds'] if g == 1 else [b / float(g) for b in case['bounds']]
+    if case.get('boundskind') == 'array':
+        grid = np.array(grid)               # the reader's chunk_bounds attribute is an array, not a list
     sel = SpikeSelector(get_spikes_per_cluster=lambda c: spc.get(c, np.array([], dtype=np.int64)),
                         spike_times=st, chunk_bounds=grid, n_chunks_kept=case['n_kept'])
     subset = None if case.get('subset') is None else np.array(case['subset'], dtype=np.int64)
@@ -45,7 +47,7 @@ def impl(case):
 
 
 def model_query(case, impl_res):
-    q = {k: v for k, v in case.items() if k not in ('tdtype', 'rs', 'gscale', 'countkind', 'reqkind', 'scdtype', 'pre')}
+    q = {k: v for k, v in case.items() if k not in ('tdtype', 'rs', 'gscale', 'countkind', 'reqkind', 'scdtype', 'pre', 'boundskind')}
     q['times'] = [t * case.get('gscale', 1) for t in case['times']]
     q['op'] = 'select'
     if 'ok' in impl_res and all(x >= 0 for x in impl_res['ok']['out']):
@@ -67,7 +69,7 @@ def judge(case, impl_res, ans):
     if any(x < 0 or x >= len(case['times']) for x in ok['out']):
         return 'SPEC: the selection contains spike ids outside 0..n_spikes-1: %s' % [x for x in ok['out'] if x < 0 or x >= len(case['times'])][:5]
     if m['impl_kept_ok'] is not True:
-        return 'SPEC: kept chunks are not whole grid intervals at a regular stride / too many'
+        return 'SPEC: kept chunks are not whole grid intervals at a regular stride starting with the first / too many'
     if m['impl_spec'] is not True:
         return 'SPEC: selection violates the cluster/chunk/subset/count constraints'
     if not m['random'] and ok['out'] != m['model']:
@@ -94,6 +96,8 @@ def tally(rep, case, impl_res, ans):
         rep.count('subset_with_repeats')
     if 'ok' in ans:
         rep.count('random_choice_needed:%s' % ans['ok']['random'])
+    rep.count('grid_given_as:%s' % case.get('boundskind', 'list'))
+    rep.count('n_kept:%s, bounds:%s' % ('<=6' if case['n_kept'] <= 6 else '7+', '<=8' if len(case['bounds']) <= 8 else '9+'))
     rep.count('earlier_calls_on_same_selector:%d' % len(case.get('pre', [])))
     if any(a > b for a, b in zip(case['times'], case['times'][1:])):
         rep.count('times_not_sorted')
@@ -181,6 +185,15 @@ def gen(tier, rng):
             c['gscale'] = g
             c['bounds'] = sorted(rng.sample(range(0, 31 * g), nb))
             c['times'] = sorted(rng.pick([rng.randrange(0, 31), rng.pick(c['bounds']) // g]) for _ in range(ns))
+        if rng.random() < .3:
+            c['boundskind'] = 'array'
+        if rng.random() < .15:
+            # long grids with many kept chunks (the model keeps 20 chunks out of hundreds)
+            nb2 = rng.randrange(9, 60)
+            g = c.get('gscale', 1)
+            c['bounds'] = sorted(rng.sample(range(0, 31 * g * 4), nb2))
+            c['n_kept'] = rng.randrange(1, 25)
+            c['times'] = sorted(rng.pick([rng.randrange(0, 31 * 4), rng.pick(c['bounds']) // g]) for _ in range(ns))
         if rng.random() < .25 and ns > 1:
             # spike times that are not in increasing order of spike id (e.g. stored shank after shank): the property
             # quantifies over all spike-time vectors and the chunk test is per spike
